@@ -1,7 +1,9 @@
 mod clock;
 mod e2e;
+mod forge;
 mod framework;
 mod prng;
+mod oracles;
 mod props;
 mod reagg;
 mod scen;
@@ -23,7 +25,7 @@ fn main() {
         _ => Tier::Quick,
     };
     let mut seed: u64 = std::env::var("VERIF_SEED").ok().and_then(|s| s.parse().ok()).unwrap_or(1);
-    let mut only: Option<usize> = None;
+    let mut only: Option<String> = None;
     let mut i = 2;
     while i < args.len() {
         match args[i].as_str() {
@@ -36,14 +38,14 @@ fn main() {
                 i += 1;
             }
             "--only" => {
-                only = args.get(i + 1).and_then(|s| s.parse().ok());
+                only = args.get(i + 1).cloned();
                 i += 1;
             }
             "--replay" => {
                 // a replay file names the scenario index and seed
                 if let Some(v) = args.get(i + 1).and_then(|p| std::fs::read_to_string(p).ok()).and_then(|s| serde_json::from_str::<serde_json::Value>(&s).ok()) {
                     seed = v.get("seed").and_then(serde_json::Value::as_u64).unwrap_or(seed);
-                    only = v.pointer("/case/scenario").and_then(serde_json::Value::as_u64).map(|x| x as usize);
+                    only = v.pointer("/case/scenario").map(|x| x.as_str().map_or_else(|| x.to_string(), ToString::to_string));
                     if v.get("tier").and_then(serde_json::Value::as_str) == Some("thorough") {
                         tier = Tier::Thorough;
                     }
@@ -56,7 +58,8 @@ fn main() {
     }
     framework::install_panic_hook();
     let code = match prop.as_str() {
-        "C01" => props::c01::run(tier, seed, only),
+        "C01" => props::c01::run(tier, seed, only.and_then(|s| s.parse().ok())),
+        "C03" => props::c03::run(tier, seed, only),
         _ => {
             eprintln!("unknown property {prop}");
             2
